@@ -1275,7 +1275,28 @@ func connectcloseprobe(in json.RawMessage, res *vh.Result) error {
 			return err
 		}
 		env.Node.SetPresenceManager(gp)
+		gbk, err := cl.NewGateBroker(env.Node)
+		if err != nil {
+			return err
+		}
+		env.Node.SetBroker(gbk)
 		ch := fmt.Sprintf("cc%d_%d", vh.Seed(), i)
+		var jlMu sync.Mutex
+		var jl []string
+		gbk.OnPublishJoin = func(c string, _ *centrifuge.ClientInfo) {
+			if c == ch {
+				jlMu.Lock()
+				jl = append(jl, "join")
+				jlMu.Unlock()
+			}
+		}
+		gbk.OnPublishLeave = func(c string, _ *centrifuge.ClientInfo) {
+			if c == ch {
+				jlMu.Lock()
+				jl = append(jl, "leave")
+				jlMu.Unlock()
+			}
+		}
 		gate := cl.NewGate()
 		gp.OnAdded = func(c, _ string) {
 			if c == ch {
@@ -1283,7 +1304,7 @@ func connectcloseprobe(in json.RawMessage, res *vh.Result) error {
 			}
 		}
 		env.OnConnecting = func(_ context.Context, _ centrifuge.ConnectEvent) (centrifuge.ConnectReply, error) {
-			return centrifuge.ConnectReply{Subscriptions: map[string]centrifuge.SubscribeOptions{ch: {EmitPresence: true}}}, nil
+			return centrifuge.ConnectReply{Subscriptions: map[string]centrifuge.SubscribeOptions{ch: {EmitPresence: true, EmitJoinLeave: true}}}, nil
 		}
 		if err := env.Run(); err != nil {
 			return err
@@ -1323,6 +1344,22 @@ func connectcloseprobe(in json.RawMessage, res *vh.Result) error {
 		}
 		if clients > 0 {
 			res.Violate("C05", "probe:connect-close:client-after-close", fmt.Sprintf("%d connections still registered", clients), replay)
+		}
+		// C07: the connect-time subscription was rolled back (or completed): every leave needs an earlier join
+		jlMu.Lock()
+		seq := append([]string(nil), jl...)
+		jlMu.Unlock()
+		bal := 0
+		for _, e := range seq {
+			if e == "join" {
+				bal++
+			} else {
+				bal--
+			}
+			if bal < 0 {
+				res.Violate("C07", "probe:connect-close:leave-without-join", fmt.Sprintf("connect-time subscription closed during connect: observers got %v", seq), map[string]any{"probe": replay["probe"], "joinleave": seq})
+				break
+			}
 		}
 		res.Distinct("connectclose")
 		res.Sample(replay)
